@@ -40,10 +40,13 @@ def _attribute_name_for_errors(attr):
 # Attribute type checkers
 def _is_constant_boolean(attr, module_source_file):
     """Checks if the given attr is a constant boolean."""
+    # ir_util.get_boolean_attribute only understands literal `true`/`false`,
+    # so other constant boolean expressions (`1 == 1`) cannot be accepted here.
     if (
         not attr.value.has_field("expression")
         or attr.value.expression.type.which_type != "boolean"
         or not attr.value.expression.type.boolean.has_field("value")
+        or not attr.value.expression.has_field("boolean_constant")
     ):
         return [
             [
